@@ -298,8 +298,8 @@ def replay(cex):
             1j*rng.normal(size=(nsrc, 2, 1)))*1e-9
     opts = dict(gridding='same', max_workers=1, verb=0,
                 receiver_interpolation='linear', tqdm_opts=False,
-                solver_opts=dict(tol=1e-10, tol_gradient=1e-2, plain=True,
-                                 maxit=200))
+                solver_opts=dict(tol=1e-12, tol_gradient=1e-2, plain=True,
+                                 maxit=300))
 
     def mk_sim(mseed):
         survey = emg3d.Survey(src, rec, [1.0], data=data.copy(),
@@ -349,8 +349,9 @@ def replay(cex):
             elif name == 'to_file_results':
                 sim.to_file(os.path.join(tmp, 'x.h5'), what='results',
                             verb=0)
-        got = (sim.data.synthetic.data.copy(), float(sim.misfit),
-               np.array(sim.gradient))
+        # (same order as the symbolic harness: misfit, then the data)
+        mis_, grad_ = float(sim.misfit), np.array(sim.gradient)
+        got = (sim.data.synthetic.data.copy(), mis_, grad_)
         fresh = mk_sim(mseed)
         want = (fresh.data.synthetic.data.copy(), float(fresh.misfit),
                 np.array(fresh.gradient))
